@@ -588,6 +588,14 @@ class Interp:
             return self.mk(r, "bool")
         raise Unsupported("compare op")
 
+    @staticmethod
+    def has_symbolic_part(x):
+        if isinstance(x, (Sym, Obj)):
+            return True
+        if isinstance(x, (tuple, list)):
+            return any(Interp.has_symbolic_part(e) for e in x)
+        return False
+
     def contains(self, cont, x, fr):
         cont = self.force(cont)
         if isinstance(cont, LibObj) and cont.kind == "local_dict" and cont.heap is not None:
@@ -601,8 +609,11 @@ class Interp:
             ts = [self.as_bool(self.eq_term(x, e)) for e in cont]
             return z3.simplify(z3.Or(*ts)) if ts else False
         if isinstance(cont, dict):
-            if isinstance(x, (Sym, Obj)):
-                raise Unsupported("symbolic key in concrete dict")
+            if self.has_symbolic_part(x):
+                # a key with symbolic parts (a Sym, or a tuple holding one) is compared structurally with every stored key:
+                # Python's own hashing of the interpreter's value objects would say "absent" for every symbolic key
+                ts = [self.as_bool(self.eq_term(x, e)) for e in cont]
+                return z3.simplify(z3.Or(*ts)) if ts else False
             return x in cont
         return self.lib.contains(self, cont, x, fr)
 
@@ -743,7 +754,7 @@ class Interp:
         if isinstance(v, Obj) and v.typ.kind == "dict":
             return self.d_getitem(v, k, fr, node)
         if isinstance(v, dict):
-            if isinstance(k, (Sym, Obj)):
+            if self.has_symbolic_part(k):
                 for key in list(v):
                     if self.c.branch(self.as_bool(self.eq_term(k, key)), "dict-key"):
                         return v[key]
@@ -1121,10 +1132,13 @@ class Interp:
             self.d_setitem(o, k, v)
             return
         if isinstance(o, dict):
-            if isinstance(k, (Sym, Obj)):
+            self.w.check_not_shared(o, "item assignment")
+            if self.has_symbolic_part(k):
                 raise Unsupported("symbolic key store into concrete dict")
             o[k] = v
             return
+        if isinstance(o, LibObj) and o.kind == "local_dict":
+            self.w.check_not_shared(o, "item assignment")
         if o is None or isinstance(o, (int, bool, str)) or is_sym(o):
             raise RaiseSig(self.make_exc("TypeError", site=node))
         self.lib.setitem(self, o, k, v, fr, node)
@@ -1167,7 +1181,43 @@ class Interp:
     def ex_While(self, s, fr):
         self.w.spec.exec_while(self, s, fr)
 
+    PURE_NODES = (ast.Name, ast.Attribute, ast.Compare, ast.BoolOp, ast.UnaryOp, ast.Constant, ast.Load, ast.And, ast.Or, ast.Not,
+                  ast.Eq, ast.NotEq, ast.Lt, ast.LtE, ast.Gt, ast.GtE, ast.Is, ast.IsNot, ast.In, ast.NotIn, ast.Tuple)
+
+    def as_dict_comprehension(self, s, fr):
+        """`for T in X: [if C:] D[K] = V` filling a local dict D that is still empty is the comprehension
+        `D = {K: V for T in X [if C]}` when C, K and V are side-effect free (names, attributes, comparisons).  Returns
+        (name of D, the DictComp node) or None.  Lets a loop written out by hand share the comprehension's model."""
+        if s.orelse or len(s.body) != 1:
+            return None
+        st, test = s.body[0], None
+        if isinstance(st, ast.If):
+            if st.orelse or len(st.body) != 1:
+                return None
+            st, test = st.body[0], st.test
+        if not (isinstance(st, ast.Assign) and len(st.targets) == 1 and isinstance(st.targets[0], ast.Subscript)
+                and isinstance(st.targets[0].value, ast.Name)):
+            return None
+        name = st.targets[0].value.id
+        d = fr.locals.get(name)
+        if not (isinstance(d, LibObj) and d.kind == "local_dict" and d.heap is None and not d.py and not getattr(d, "shared", False)):
+            return None
+        for e in [x for x in (test, st.targets[0].slice, st.value) if x is not None]:
+            if not all(isinstance(n, self.PURE_NODES) for n in ast.walk(e)):
+                return None
+        comp = ast.DictComp(key=st.targets[0].slice, value=st.value,
+                            generators=[ast.comprehension(target=s.target, iter=s.iter, ifs=[test] if test is not None else [], is_async=0)])
+        return name, ast.copy_location(comp, s)
+
     def ex_For(self, s, fr):
+        dc = self.as_dict_comprehension(s, fr)
+        if dc is not None:
+            name, comp = dc
+            try:
+                fr.locals[name] = self.ev_DictComp(comp, fr)
+                return
+            except Unsupported:
+                pass  # not a shape the comprehension model knows: treat it as the loop it is
         it = self.ev(s.iter, fr)
         if self.lib.is_symbolic_iterable(self, it):
             self.w.spec.exec_symbolic_for(self, s, it, fr)
